@@ -566,6 +566,21 @@ impl UringConnectionHandler for ZmtpUringHandler {
 
     let mut ops = HandlerIoOps::new();
 
+    // Heartbeats: the worker loop is this connection's clock (it wakes at least every
+    // KERNEL_POLL_MAX_DURATION). on_tick() depends only on the time passed in, so it can
+    // be asked on every pass: it sends a PING after HEARTBEAT_IVL of silence and reports
+    // the peer dead when the PING stays unanswered for HEARTBEAT_TIMEOUT.
+    if !self.is_closing && self.engine.config().heartbeat_ivl.is_some() {
+      let tick_out = self.engine.on_tick(Instant::now());
+      if !tick_out.net_actions.is_empty() || !tick_out.app_actions.is_empty() {
+        let hb_ops = self.apply_engine_output(tick_out);
+        if hb_ops.initiate_close_due_to_error {
+          return hb_ops;
+        }
+        ops.sqe_blueprints.extend(hb_ops.sqe_blueprints);
+      }
+    }
+
     // (a) Re-arm multishot read.
     if !self.is_closing && !self.should_throttle_reads() {
       if let Some(reader) = &mut self.multishot_reader {
